@@ -15,6 +15,7 @@ package main
 
 import (
 	"fmt"
+	"os"
 
 	. "verifharness/lib"
 )
@@ -29,12 +30,19 @@ func run(c *Ctx) {
 	im := NewImpl("C02", c.Seed, c.Tier)
 	im.Rule = "codec: per real node a sequence of AddNameHash / translateDataFromMessage / translateDataToMessage calls on names (random bytes, localhost spellings, own ID), services (0-12 bytes, NULs at every position, 8-byte boundary), hop bytes and payloads 0..MTU; decode inputs are encoder outputs, packets of a peer node, truncations around 36 bytes and random bytes; non-trivial = a call whose input is not empty; " +
 		"framer: SendData at the uint16 boundary, random RecvData/MessageReady/GetMessage sequences, and ReadMessage over scripted chunkings (1-byte, header-splitting, coalescing, cut anywhere) of framed random messages; non-trivial = at least one frame split across chunks or several frames in one chunk; " +
-		"mesh: chains, stars and trees of 2-5 real nodes over message links and over re-chunking byte-stream links (real framer), listeners on 4-6 services per node incl. names at the 8-byte boundary, concurrent senders, payloads 0..MTU; non-trivial = datagram crossing at least one link; distinct by full input"
+		"mesh: chains, stars and trees of 2-5 real nodes over message links and over re-chunking byte-stream links (real framer), listeners on 4-6 services per node incl. names at the 8-byte boundary, concurrent senders, payloads 0..MTU; non-trivial = datagram crossing at least one link; relink: four real nodes with redundant links (triangle plus a fourth node reachable two ways); after each change of the link set (a direct link lost while another route exists, re-established by a new session, another link lost, all back) every node sends to a listener on every other node, one observation = one datagram; distinct by full input"
 	cf := &CaseFile{Dir: c.Out, Prop: "C02", Imports: []string{"Model.Wire", "Model.Framer"},
 		CaseType: caseType, CheckFn: checkFn, PerShard: 40}
+	if os.Getenv("C02_ONLY") == "relink" { // development aid
+		relinkCases(c, im)
+		Must(cf.Write())
+		Must(im.Write(c.Out))
+		return
+	}
 	codecCases(c, im, cf)
 	framerCases(c, im, cf)
 	meshCases(c, im, cf)
+	relinkCases(c, im)
 	sameNodeBufferReuse(c, im)
 	Must(cf.Write())
 	Must(im.Write(c.Out))
